@@ -291,11 +291,69 @@ template<typename T> void dump(std::unique_ptr<T> const &v,std::string &o) { dum
 template<typename T> void parse(Tok &t,std::unique_ptr<T> &v) { parse_ptr<std::unique_ptr<T>,T>(t,v); }
 template<typename T> void dump(booster::copy_ptr<T> const &v,std::string &o) { dump_ptr(v,o); }
 template<typename T> void parse(Tok &t,booster::copy_ptr<T> &v) { parse_ptr<booster::copy_ptr<T>,T>(t,v); }
+static void jstr(std::string const &x,std::string &s)
+{
+	static char const hexd[]="0123456789abcdef";
+	s+='"';
+	for(size_t i=0;i<x.size();i++) {
+		unsigned char c=x[i];
+		switch(c) {
+		case '"': s+="\\\""; break;
+		case '\\': s+="\\\\"; break;
+		case 8: s+="\\b"; break;
+		case 12: s+="\\f"; break;
+		case 10: s+="\\n"; break;
+		case 13: s+="\\r"; break;
+		case 9: s+="\\t"; break;
+		default:
+			if(c<0x20) { s+="\\u00"; s+=hexd[c>>4]; s+=hexd[c&15]; }
+			else s+=char(c);
+		}
+	}
+	s+='"';
+}
+static bool jtext(cppcms::json::value const &v,std::string &s)
+{
+	using namespace cppcms::json;
+	switch(v.type()) {
+	case is_undefined: return false;
+	case is_null: s+="null"; return true;
+	case is_boolean: s+=v.boolean()?"true":"false"; return true;
+	case is_number: s+=value(v.number()).save(compact); return true;
+	case is_string: jstr(v.str(),s); return true;
+	case is_array: {
+		array const &a=v.array();
+		s+='[';
+		for(size_t i=0;i<a.size();i++) { if(i) s+=','; if(!jtext(a[i],s)) return false; }
+		s+=']';
+		return true;
+	}
+	case is_object: {
+		object const &ob=v.object();
+		s+='{';
+		bool first=true;
+		for(object::const_iterator p=ob.begin();p!=ob.end();++p) {
+			if(!first) s+=',';
+			first=false;
+			jstr(p->first.str(),s);
+			s+=':';
+			if(!jtext(p->second,s)) return false;
+		}
+		s+='}';
+		return true;
+	}
+	}
+	return false;
+}
 // json::value travels as its compact text; "ju" is the undefined value (it has no text: save throws)
 void dump(cppcms::json::value const &v,std::string &o)
 {
 	if(v.is_undefined()) { o+=" ju"; return; }
-	std::string s=v.save(cppcms::json::compact);
+	// The compact text is written here, by the harness, from the tree itself (strings escaped with a table of
+	// our own, numbers through the library's number writer): a writer whose escapes are wrong would otherwise
+	// print a wrongly loaded string back as the text of the right one (seed C19-10: two swapped rows cancel).
+	std::string s;
+	if(!jtext(v,s)) s=v.save(cppcms::json::compact);
 	o+=" j"; o+=hx(s.data(),s.size());
 }
 void parse(Tok &t,cppcms::json::value &v)
